@@ -622,10 +622,47 @@ def cone_cases(rng, tier, curved_fixed):
     return cs
 
 
+def factory_cases(rng, tier):
+    """parallel_beam_geometry / cone_beam_geometry / helical_geometry on dyadic volumes: detector extent (rho, w/2),
+    helical offset and pitch."""
+    import odl
+    cs = C.CaseSet('factories', IMPORTS, 'check', 'case')
+    n = 10 if tier == 'quick' else 40
+    for _ in range(n):
+        lo = [rng.choice([-2.0, -1.0, -0.5, -1.5, -3.0]) for _ in range(3)]
+        hi = [rng.choice([0.5, 1.0, 2.0, 1.5, 0.25]) for _ in range(3)]
+        if rng.random() < 0.3:           # Pythagorean corner: rho rational
+            lo[0], hi[0], lo[1], hi[1] = -3.0, 1.0, -4.0, 2.0
+        rho = max(math.hypot(x, y) for x in (lo[0], hi[0]) for y in (lo[1], hi[1]))
+        rs = float(math.ceil(rho) + rng.choice([1, 2, 5]))
+        rd = rng.choice([0.5, 1.0, 3.0, 4.0])
+        turns = rng.choice([1, 2, 4, 0.5])
+        shape = [rng.randint(3, 6) for _ in range(3)]
+
+        def run():
+            sp3 = odl.uniform_discr(lo, hi, shape)
+            sp2 = odl.uniform_discr(lo[:2], hi[:2], shape[:2])
+            gp = odl.tomo.parallel_beam_geometry(sp2)
+            gp3 = odl.tomo.parallel_beam_geometry(sp3)
+            gc = odl.tomo.cone_beam_geometry(sp2, rs, rd)
+            gc3 = odl.tomo.cone_beam_geometry(sp3, rs, rd)
+            gh = odl.tomo.helical_geometry(sp3, rs, rd, num_turns=turns)
+            r1, r2 = float(gp.det_params.max_pt[0]), float(gp3.det_params.max_pt[0])
+            w1, w2, w3 = float(gc.det_params.max_pt[0]), float(gc3.det_params.max_pt[0]), float(gh.det_params.max_pt[0])
+            assert r1 == r2 == -float(gp.det_params.min_pt[0]) and w1 == w2 == w3 == -float(gc.det_params.min_pt[0])
+            assert list(gp3.det_params.min_pt[1:]) == [lo[2]] and list(gp3.det_params.max_pt[1:]) == [hi[2]]
+            return [r1, w1, gh.offset_along_axis, gh.pitch]
+        model = 'obs_factory %s' % ' '.join(C.q(x) for x in (lo[0], hi[0], lo[1], hi[1], lo[2], hi[2], rs, rd, turns))
+        add_case(cs, model, impl(run), {'fn': 'factories', 'min_pt': lo, 'max_pt': hi, 'src_radius': rs,
+                                        'det_radius': rd, 'num_turns': turns},
+                 ('factory', tuple(lo), tuple(hi), rs, rd, turns))
+    return cs
+
+
 def correspondence(rng, tier):
     _ARANGE[0] = (-4.0, 4.0)
     out = [utility_cases(rng, tier), par2d_cases(rng, tier), par3_cases(rng, tier), fan_cases(rng, tier),
-           cone_cases(rng, tier, curved_alignment_fixed())]
+           cone_cases(rng, tier, curved_alignment_fixed()), factory_cases(rng, tier)]
     _ARANGE[0] = (-4.0, 4.0)
     return out
 
@@ -1232,7 +1269,8 @@ def probes(rng, tier):
     return out
 
 
-RULE = ('5 case sets (utility functions, Parallel2d, Parallel3dAxis/Euler, FanBeam, ConeBeam). Per geometry class: random '
+RULE = ('6 case sets (utility functions, Parallel2d, Parallel3dAxis/Euler, FanBeam, ConeBeam, factories: rho, half width, '
+        'helical offset and pitch on dyadic volumes). Per geometry class: random '
         'constructor arguments -- Pythagorean (rational length, so every branch test is decided exactly) and generic '
         'integer axes / initial positions / detector axes, zero vectors and bad radii (ValueError), inputs inside and just '
         'outside the allclose window of transform_system, dyadic translations, flat / circular / cylindrical / spherical '
@@ -1247,11 +1285,14 @@ ASSUMPTIONS = ['exact arithmetic: rounding is out of scope; np.cos/np.sin/np.arc
                'that the pair is the cosine/sine of that value is outside the model',
                'the correspondence executes the model at a rational carrier that is exact up to denominators 10^36 and '
                'rounds to 30 digits beyond (generic axes give nested irrational roots); comparison tolerance 1e-9',
-               'inputs on which floating-point rounding decides a branch (exact == 0 tests on rotated axes, the poles of '
-               'the spherical detector, arccos next to 1) are excluded from the correspondence and left to probes',
+               'inputs on which floating-point rounding decides a branch (the poles of the spherical detector, arccos next '
+               'to 1) are excluded from the correspondence and left to probes',
                'NumPy broadcasting/shape mechanics of the vectorised entry points are validated by probes, not modelled',
-               'cone_beam_geometry/helical_geometry: only the detector extent formulas are modelled (not the Nyquist '
-               'sample counts, ceil, arctan)']
+               'factories: detector extents, helical offset and pitch are modelled and compared; the Nyquist sample counts '
+               '(ceil) and the pixel round-up of the cone-beam detector height are not',
+               'no Q2R transfer theorem: the shards execute the model at a ROUNDING rational carrier (exact below '
+               'denominators 1e36), which is not a ring homomorphism; the executed model is tied to the proved one only by '
+               'being the same polymorphic term']
 TRUSTED = ['translate/geometry_formulas.py (Python ast -> Gallina, fail closed): matrix literals of euler_matrix, entries of '
            'axis_rotation_matrix, native surface/surface_deriv vectors of the curved detectors',
            'C19/Model.v: hand transcription of the rest of utility.py / detector.py / geometry.py / parallel.py / '
